@@ -246,7 +246,7 @@ def expand(args) -> Dict[str, Any]:
             e2.close()
     # 3. pairs of operations by two different clients made visible before the same round
     if cfg.pairs != "none":
-        single = [(l, e) for l, e in ops if all(x[0] == "send" for x in e)]
+        single = [(l, e) for l, e in ops if all(x[0] in ("send", "fin", "rst") for x in e)]
         for (l1, e1), (l2, e2s) in itertools.combinations(single, 2):
             if e1[0][1] == e2s[0][1]:
                 continue
